@@ -4,6 +4,7 @@ package main
 
 import (
 	"fmt"
+	"os"
 	"strings"
 	"testing"
 
@@ -210,6 +211,19 @@ func c10Check(c c10Case) kit.Outcome {
 	out.Label(fmt.Sprintf("extras:%d", len(c.Offsets)))
 	out.Nontrivial = c.Phase != "working" || len(c.Offsets) >= 2
 	out.Sample = c
+	if os.Getenv("VERIF_RACE") != "" {
+		// race-detector build of the hosts: only what can kill the emulator is judged (timing rules mean nothing here)
+		out.Label("race-detector-host")
+		for _, r := range run.Races {
+			fn := strings.SplitN(r, "@", 2)[0]
+			fn = fn[strings.LastIndex(fn, ".")+1:]
+			out.Violate("C10/map-race/"+fn, "unsynchronised Go map accessed from two goroutines of the emulator (the Go runtime kills the process with 'concurrent map read and map write' when they overlap): %s", r)
+		}
+		if run.Died {
+			out.Violate("C10/host-died/"+panicKind(run.Stderr), "emulator process died with %d extra caller(s) in phase %s: %s", len(c.Offsets), c.Phase, panicLine(run.Stderr))
+		}
+		return out
+	}
 	if run.Died {
 		out.Violate("C10/host-died/"+panicKind(run.Stderr), "emulator process died with %d extra caller(s) in phase %s: %s", len(c.Offsets), c.Phase, panicLine(run.Stderr))
 		return out
